@@ -117,6 +117,7 @@ class InlineState:
         self.tokens: List[Dict[str, Any]] = []
         self.in_image = False
         self.in_link = False
+        self.in_link_text = False
         self.in_emphasis = False
         self.in_strong = False
 
@@ -133,6 +134,7 @@ class InlineState:
         state = self.__class__(self.env)
         state.in_image = self.in_image
         state.in_link = self.in_link
+        state.in_link_text = self.in_link_text
         state.in_emphasis = self.in_emphasis
         state.in_strong = self.in_strong
         return state
